@@ -466,7 +466,7 @@ def lean_lines(op):
         return ["op\tupdateread\t" + op[1]]
     if n == "clear":
         return ["op\tclear"]
-    if n == "loadmodel":
+    if n in ("loadmodel", "setmodel"):
         return ["op\tclear"]  # load_model invalidates the policy (and nothing else: flags, adapter and watcher stay)
     if n in ("build", "setrm"):
         return ["op\tbuild"]  # a swapped-in empty role manager followed by build_role_links = a rebuild
@@ -577,6 +577,14 @@ def impl_call(e, op, is_async):
         return call("clear_policy")
     if n == "build":
         return call("build_role_links")
+    if n == "setmodel":
+        # replace the model by a freshly parsed one of the same text: the policy is invalidated, everything else stays
+        e.set_model(common.use_repo().Enforcer.new_model(text=TEXT[getattr(e, "_verif_text", None) or "rbac"]))
+        for pt, rm in list(e.rm_map.items()):
+            rm.clear()
+            if pt in e.model.model.get("g", {}):
+                e.model.model["g"][pt].rm = rm
+        return None
     if n == "loadmodel":
         # reload the model from its CONF file: the policy is invalidated; everything else about the enforcer stays
         import os
